@@ -107,8 +107,8 @@ pub fn gen_c12(rng: &mut Rng, tier: Tier) -> Result<Value, serde_json::Error> {
         _ => Strat::All,
     };
     let issuances = match tier {
-        Tier::Quick => 50 + rng.usize(100),
-        Tier::Thorough => 200 + rng.usize(200),
+        Tier::Quick => 100 + rng.usize(200),
+        Tier::Thorough => 250 + rng.usize(250),
     };
     let selections = (0..3)
         .map(|i| {
@@ -142,6 +142,9 @@ pub fn execute_c12(scn_v: &Value) -> RunReport {
     let mut all_decoys: HashSet<String> = HashSet::new();
     let mut all_real: HashSet<String> = HashSet::new();
     let (mut lists, mut lists_member_order, mut lists_decoys_after) = (0u64, 0u64, 0u64);
+    // the same criterion per class of location (signed payload / inside a disclosure value) and
+    // per object position: (lists, in member order, decoys last)
+    let mut by_group: BTreeMap<String, (u64, u64, u64)> = BTreeMap::new();
     let mut first_on: Option<String> = None;
     let n = scn.issuances.max(1);
     for k in 0..n {
@@ -179,13 +182,21 @@ pub fn execute_c12(scn_v: &Value) -> RunReport {
                 lists += 1;
                 // member order = creation order of the members' disclosures
                 let idx: Vec<usize> = reals.iter().filter_map(|d| disc_of.get(*d).and_then(|s| order.get(*s)).copied()).collect();
-                if idx.windows(2).all(|p| p[0] < p[1]) {
+                let in_order = idx.windows(2).all(|p| p[0] < p[1]);
+                if in_order {
                     lists_member_order += 1;
                 }
                 let last_real = o.sd.iter().rposition(|d| real.contains(d)).unwrap_or(0);
                 let first_decoy = o.sd.iter().position(|d| !real.contains(d)).unwrap_or(usize::MAX);
-                if first_decoy > last_real {
+                let decoys_last = first_decoy > last_real;
+                if decoys_last {
                     lists_decoys_after += 1;
+                }
+                for g in [if o.within.is_some() { "in-disclosure-value".to_string() } else { "in-signed-payload".to_string() }, format!("object#{}", oi)] {
+                    let e = by_group.entry(g).or_insert((0, 0, 0));
+                    e.0 += 1;
+                    e.1 += in_order as u64;
+                    e.2 += decoys_last as u64;
                 }
             }
         }
@@ -216,6 +227,18 @@ pub fn execute_c12(scn_v: &Value) -> RunReport {
         }
         if lists_decoys_after == lists {
             cx.violate("C12", "order-does-not-reveal-decoys", "c12:order_decoys_last".into(), BTreeMap::new(), json!({"lists": lists}), scenario.clone());
+        }
+    }
+    for (g, (n_l, n_o, n_d)) in &by_group {
+        if *n_l >= 200 {
+            cx.rep.count("oracle.c12.order_judged_per_group");
+            let class = if g.starts_with("object#") { "one object position" } else { g.as_str() };
+            if n_o == n_l {
+                cx.violate("C12", "order-does-not-reveal-member-order", format!("c12:order_member_order:{}", class.replace(' ', "_")), BTreeMap::new(), json!({"group": g, "lists": n_l, "note": "every _sd list of this group lists the real digests in the original member order"}), scenario.clone());
+            }
+            if n_d == n_l {
+                cx.violate("C12", "order-does-not-reveal-decoys", format!("c12:order_decoys_last:{}", class.replace(' ', "_")), BTreeMap::new(), json!({"group": g, "lists": n_l}), scenario.clone());
+            }
         }
     }
     // decoys off: every digest matches an issued disclosure
@@ -349,6 +372,9 @@ struct WorldOut {
     preempts: u64,
     threads_spawned: u64,
     steps: u64,
+    /// times a granted node was found asleep on a lock held by a parked node
+    blocked: u64,
+    deadlocked: bool,
 }
 
 /// One world: `threads` issuer nodes in lock-step, each issuing `per_thread` credentials.
@@ -364,6 +390,19 @@ fn run_threads_world(scn: &ThreadsScn, entropy_seed: u64) -> WorldOut {
     let mut rng = Rng::new(scn.sched_seed);
     let mut sched_hash = 0xabcdu64;
     let mut preempts = 0u64;
+    let mut blocked = 0u64;
+    let mut deadlocked = false;
+    w.rt.detect_blocked = true;
+    fn collect(r: Result<JobOut, crate::rt::PanicInfo>, t: usize, issued: &mut Vec<(usize, String)>) {
+        if let Ok(o) = r {
+            if let Ok(s) = o.downcast::<Option<String>>() {
+                if let Some(s) = *s {
+                    seams::log("issued", s.as_bytes());
+                    issued.push((t, s));
+                }
+            }
+        }
+    }
     seams::PREEMPT_ENTROPY.store(scn.preempt_entropy, Ordering::SeqCst);
     seams::PREEMPT_CLOCK.store(scn.preempt_clock, Ordering::SeqCst);
     loop {
@@ -378,7 +417,7 @@ fn run_threads_world(scn: &ThreadsScn, entropy_seed: u64) -> WorldOut {
                 let decoys = scn.decoys;
                 let job: Job = Box::new(move || {
                     let mut g = ih.lock().unwrap_or_else(|e| e.into_inner());
-                    let r = g.issue_sd_jwt(claims, sd_jwt_rs::issuer::ClaimsForSelectiveDisclosureStrategy::AllLevels, None, decoys, sd_jwt_rs::SDJWTSerializationFormat::Compact);
+                    let r = g.get().issue_sd_jwt(claims, sd_jwt_rs::issuer::ClaimsForSelectiveDisclosureStrategy::AllLevels, None, decoys, sd_jwt_rs::SDJWTSerializationFormat::Compact);
                     Box::new(r.ok()) as JobOut
                 });
                 w.rt.submit(nodes[t], job);
@@ -386,26 +425,43 @@ fn run_threads_world(scn: &ThreadsScn, entropy_seed: u64) -> WorldOut {
                 remaining[t] -= 1;
             }
         }
-        let runnable: Vec<usize> = (0..scn.threads).filter(|t| busy[*t]).collect();
-        if runnable.is_empty() {
+        if !busy.iter().any(|b| *b) {
             break;
+        }
+        // nodes that finished while they did not own the baton (they had slept on a lock)
+        for t in 0..scn.threads {
+            if busy[t] {
+                if let Some(r) = w.rt.try_collect(nodes[t]) {
+                    busy[t] = false;
+                    done[t] += 1;
+                    collect(r, t, &mut issued);
+                }
+            }
+        }
+        let can_run = w.rt.runnable();
+        let runnable: Vec<usize> = (0..scn.threads).filter(|t| busy[*t] && can_run.contains(&nodes[*t])).collect();
+        if runnable.is_empty() {
+            if !busy.iter().any(|b| *b) {
+                continue;
+            }
+            // everybody left is asleep on a lock: wait (real time) for one of them to move; if
+            // nothing moves the code under test has deadlocked by itself
+            if !w.rt.wait_for_blocked(10_000) {
+                deadlocked = true;
+                break;
+            }
+            continue;
         }
         let t = runnable[rng.usize(runnable.len())];
         sched_hash = mix(&[sched_hash, t as u64]);
         seams::log_u64("sched", t as u64);
         match w.rt.step(nodes[t]) {
             Step::Yielded(_) => preempts += 1,
+            Step::Blocked => blocked += 1,
             Step::Finished(r) => {
                 busy[t] = false;
                 done[t] += 1;
-                if let Ok(o) = r {
-                    if let Ok(s) = o.downcast::<Option<String>>() {
-                        if let Some(s) = *s {
-                            seams::log("issued", s.as_bytes());
-                            issued.push((t, s));
-                        }
-                    }
-                }
+                collect(r, t, &mut issued);
             }
         }
     }
@@ -413,7 +469,7 @@ fn run_threads_world(scn: &ThreadsScn, entropy_seed: u64) -> WorldOut {
     seams::PREEMPT_CLOCK.store(false, Ordering::SeqCst);
     let (sp, st) = (w.rt.spawned, w.rt.steps);
     w.rt.shutdown();
-    WorldOut { issued, sched_hash, preempts, threads_spawned: sp, steps: st }
+    WorldOut { issued, sched_hash, preempts, threads_spawned: sp, steps: st, blocked, deadlocked }
 }
 
 struct SaltScan {
@@ -469,22 +525,24 @@ pub fn execute_c14(scn_v: &Value) -> RunReport {
     let t0 = scn.clock_base.max(1_000_000_000);
     let mut cx = Ctx::new();
     let scenario = scn_v.clone();
-    // world A twice (same seed) and world B (other seed), same schedule
+    // world A and world B (another entropy seed), same schedule. "Same seed => same salts" is
+    // not re-checked inside this process: a library with (legitimate) process-global generator
+    // state would not replay within one process. It is checked across processes by the
+    // supervisor's determinism sample, which re-executes runs in other worker processes.
     let a = run_threads_world(&scn, scn.entropy_seed);
     let end_a = seams::deactivate();
-    let a2 = run_threads_world(&scn, scn.entropy_seed);
-    let end_a2 = seams::deactivate();
     let b = run_threads_world(&scn, scn.other_entropy_seed);
-    cx.rep.add("rt.threads_spawned", a.threads_spawned + a2.threads_spawned + b.threads_spawned);
-    cx.rep.add("rt.steps", a.steps + a2.steps + b.steps);
+    cx.rep.add("rt.threads_spawned", a.threads_spawned + b.threads_spawned);
+    cx.rep.add("rt.steps", a.steps + b.steps);
     cx.rep.add("fault.preempt_at_seam", a.preempts);
     cx.rep.add("fault.restart_node", scn.restarts.len() as u64);
     if a.preempts > 0 {
         cx.rep.count("probe.preempted_inside_issue");
     }
-    if end_a.loghash != end_a2.loghash || a.issued != a2.issued {
+    cx.rep.add("probe.node_blocked_on_lock_of_parked_node", a.blocked + b.blocked);
+    if a.deadlocked || b.deadlocked {
         let mut r = finish(cx, None, t0);
-        r.harness_error = Some("nondeterminism: the same world (same entropy seed, same schedule) produced different output — an uncontrolled source feeds the salts or the schedule".into());
+        r.harness_error = Some("issuer threads deadlocked among themselves (no node could make progress for 10 s of real time)".into());
         return r;
     }
     let sa = scan(&a.issued);
@@ -570,6 +628,9 @@ pub struct MockIssue {
     pub fmt: Fmt,
     /// which of the two issuer threads performs it
     pub node: usize,
+    /// decoy digests stay random in the mock build and must not touch the salt queue
+    #[serde(default)]
+    pub decoys: bool,
 }
 
 #[derive(Clone, Debug, Serialize, Deserialize, PartialEq)]
@@ -639,7 +700,7 @@ pub fn gen_c16(rng: &mut Rng, _tier: Tier) -> Result<Value, serde_json::Error> {
             1 => gen::gen_strategy(rng, &claims),
             _ => Strat::All,
         };
-        issuances.push(MockIssue { claims, strat, fmt: rand_fmt(rng), node: rng.usize(2) });
+        issuances.push(MockIssue { claims, strat, fmt: rand_fmt(rng), node: rng.usize(2), decoys: rng.chance(1, 4) });
     }
     // queue comfortably longer than needed (an empty queue panics by design of the mock build)
     let qlen = 400;
@@ -693,7 +754,7 @@ pub fn execute_c16(scn_v: &Value) -> RunReport {
         let mut outs = Vec::new();
         for (j, is) in scn.issuances.iter().enumerate() {
             let nd = is.node % 2;
-            let out = w.issue(nodes[nd], &ih[nd], &scn.key, &is.claims, &is.strat, None, false, is.fmt);
+            let out = w.issue(nodes[nd], &ih[nd], &scn.key, &is.claims, &is.strat, None, is.decoys, is.fmt);
             if pass == 0 {
                 cx.rep.evaluations += 1;
             }
